@@ -13,6 +13,7 @@ import ttconv.imsc.reader as imsc_reader
 from ttconv.imsc.config import IMSCWriterConfiguration
 from ttconv.imsc.attributes import TimeExpressionSyntaxEnum
 
+from vt.ref_isd import INHERITED
 from vt import gen_model, codec, canon
 from vt.ref_isd import Ref
 from vt.run import Part
@@ -109,12 +110,47 @@ def steer_special(spec, choice):
   return spec
 
 
+_REL_SIZES = [styles.LengthType(50, styles.LengthType.Units.pct), styles.LengthType(2, styles.LengthType.Units.em),
+              styles.LengthType(150, styles.LengthType.Units.pct)]
+
+
+def repeat_parent_styles(spec, n):
+  """up to n elements specify again, with the same value, a style property their parent specifies: redundant for absolute values, not
+  for values relative to the parent (fontSize 50% inside 50%) or when the parent's property is animated"""
+  if spec["body"] is None or not n:
+    return spec
+  done = 0
+
+  def w(node):
+    nonlocal done
+    for kid in node["kids"]:
+      if kid["kind"] != "text":
+        if done < n and kid["kind"] != "br":
+          if done % 2 == 0:
+            # a font size relative to the parent's, the same on parent and child
+            v = _REL_SIZES[done // 2 % len(_REL_SIZES)]
+            node["styles"]["FontSize"] = v
+            kid["styles"]["FontSize"] = v
+            done += 1
+          else:
+            for name in sorted(node["styles"], key=lambda x: (x not in INHERITED, x)):
+              if name not in kid["styles"]:
+                kid["styles"][name] = node["styles"][name]
+                done += 1
+                break
+        w(kid)
+
+  w(spec["body"])
+  return spec
+
+
 def cases(prof, exact):
   def strat(tier):
     cfgs = st.tuples(st.sampled_from(FORMATS), st.one_of(st.none(), st.sampled_from(FPS)))
     choice = st.one_of(st.none(), st.tuples(st.integers(0, len(SPECIAL_OVERRIDES) - 1), st.integers(0, 1)))
-    return st.builds(lambda spec, cfg, ch: {"spec": steer_special(scale_times(spec, unit_of(cfg)) if exact else spec, ch), "cfg": cfg,
-                                            "exact": exact}, gen_model.docspecs(prof), cfgs, choice)
+    return st.builds(lambda spec, cfg, ch, rep: {"spec": repeat_parent_styles(steer_special(scale_times(spec, unit_of(cfg)) if exact else spec, ch),
+                                                                               rep), "cfg": cfg, "exact": exact},
+                     gen_model.docspecs(prof), cfgs, choice, st.sampled_from([0, 0, 1, 2, 4]))
   return strat
 
 
